@@ -287,6 +287,7 @@ pub fn resolve_inputs(spec: &str, seed: u64) -> Vec<Input> {
             "fam" => out.extend(family_inputs(f[2], f[1])),
             "ctl" => out.extend(control_inputs(f[1])),
             "ops" => out.extend(operator_inputs()),
+            "proposals" => out.extend(proposal_inputs(seed, f[1].parse().unwrap())),
             "cust" => out.extend(custom_layout_inputs(f[1])),
             "fixtures" => out.extend(fixture_inputs().into_iter().filter(|i| absmod::validate(&i.bytes).is_ok())),
             "fixtures-all" => out.extend(fixture_inputs()),
@@ -818,4 +819,172 @@ pub fn strip_ops_keep_locals(mut m: AbsModule) -> AbsModule {
         f.ops.clear();
     }
     m
+}
+
+// ---- feature escalation (C20) -------------------------------------------------------------------
+
+pub fn feature_sets() -> Vec<(Vec<String>, gen::Feat)> {
+    // all post-MVP proposals on, minus every subset of size <= 2
+    let names = gen::Feat::names();
+    let mut out = vec![(vec![], gen::Feat::all())];
+    for a in 0..names.len() {
+        let mut f = gen::Feat::all();
+        f.set(names[a], false);
+        out.push((vec![names[a].to_string()], f));
+    }
+    for a in 0..names.len() {
+        for b in (a + 1)..names.len() {
+            let mut f = gen::Feat::all();
+            f.set(names[a], false);
+            f.set(names[b], false);
+            out.push((vec![names[a].to_string(), names[b].to_string()], f));
+        }
+    }
+    out
+}
+
+/// greedy minimal feature set under which `bytes` validates (the removal order is fixed)
+pub fn minimal_features(bytes: &[u8]) -> gen::Feat {
+    let mut f = gen::Feat::all();
+    for n in gen::Feat::names() {
+        let mut g = f.clone();
+        g.set(n, false);
+        if absmod::validate_with(bytes, g.to_wasmparser()).is_ok() {
+            f = g;
+        }
+    }
+    f
+}
+
+pub fn features_case(inp: &Input, gc_runs: u32) -> Value {
+    let cfg = Cfg { probe: false, ..Default::default() };
+    let rt = run::roundtrip(&inp.bytes, &cfg, gc_runs);
+    if rt.outcome != "ok" {
+        return json!({"id": inp.id, "source": inp.source, "outcome": rt.outcome, "sets": []});
+    }
+    let mut sets = vec![];
+    for (removed, f) in feature_sets() {
+        let wf = f.to_wasmparser();
+        let inv = absmod::validate_with(&inp.bytes, wf).is_ok();
+        let outv = if inv { absmod::validate_with(&rt.out, wf) } else { Ok(()) };
+        sets.push(json!({"removed": removed, "inv": inv, "outv": outv.is_ok(), "why": outv.err().map(|e| run::short(&e)).unwrap_or_default()}));
+    }
+    let fmin = minimal_features(&inp.bytes);
+    let needs: Vec<&str> = gen::Feat::names().into_iter().filter(|n| fmin.get(n)).collect();
+    let outv = absmod::validate_with(&rt.out, fmin.to_wasmparser());
+    sets.push(json!({"removed": ["<all but the minimal set>"], "inv": true, "outv": outv.is_ok(), "why": outv.err().map(|e| run::short(&e)).unwrap_or_default()}));
+    let inm = absmod::project(&inp.bytes).unwrap_or_default();
+    let outm = absmod::project(&rt.out).unwrap_or_default();
+    json!({"id": format!("{}~gc{}", inp.id, gc_runs), "source": inp.source, "outcome": "ok", "needs": needs, "sets": sets,
+           "in_datacount": inm.datacount >= 0, "out_datacount": outm.datacount >= 0,
+           "in_elem_flags": inm.elems.iter().map(|e| e.flag).collect::<Vec<_>>(), "out_elem_flags": outm.elems.iter().map(|e| e.flag).collect::<Vec<_>>(),
+           "in_data_flags": inm.data.iter().map(|e| e.flag).collect::<Vec<_>>(), "out_data_flags": outm.data.iter().map(|e| e.flag).collect::<Vec<_>>()})
+}
+
+/// one module per post-MVP proposal that needs exactly (or at least) that proposal, plus MVP modules
+pub fn proposal_inputs(seed: u64, per: u64) -> Vec<Input> {
+    let mut out = vec![];
+    for name in gen::Feat::names() {
+        let mut o = GenOpts::default();
+        o.feat = gen::Feat::mvp();
+        o.feat.set(name, true);
+        if name == "relaxed_simd" {
+            o.feat.simd = true;
+        }
+        out.extend(generated_inputs(seed ^ 0x5eed, per, &o, &format!("only-{}", name)));
+    }
+    out
+}
+
+/// Facts about the independent validator, discovered by probing: which proposals each binary encoding needs.
+/// Written as a TLA+ module (spec/FeatureFacts.tla) that Features.tla extends.
+pub fn feature_facts() -> String {
+    use wasm_encoder as we;
+    let base = |elem: Option<Vec<u8>>, data: Option<Vec<u8>>, datacount: bool, two_tables: bool, externref_table: bool, body: Vec<we::Instruction<'static>>| -> Vec<u8> {
+        let mut m = we::Module::new();
+        let mut t = we::TypeSection::new();
+        t.function([], []);
+        if body.iter().any(|i| matches!(i, we::Instruction::Block(we::BlockType::FunctionType(1)))) {
+            t.function([], [we::ValType::I32, we::ValType::I32]);
+        }
+        m.section(&t);
+        let mut f = we::FunctionSection::new();
+        f.function(0);
+        m.section(&f);
+        let mut tb = we::TableSection::new();
+        tb.table(we::TableType { element_type: we::RefType::FUNCREF, table64: false, minimum: 1, maximum: None, shared: false });
+        if two_tables {
+            tb.table(we::TableType { element_type: if externref_table { we::RefType::EXTERNREF } else { we::RefType::FUNCREF }, table64: false, minimum: 1, maximum: None, shared: false });
+        }
+        m.section(&tb);
+        let mut mem = we::MemorySection::new();
+        mem.memory(we::MemoryType { minimum: 1, maximum: None, memory64: false, shared: false, page_size_log2: None });
+        m.section(&mem);
+        if let Some(e) = elem {
+            let mut payload = vec![1u8];
+            payload.extend(e);
+            m.section(&we::RawSection { id: 9, data: &payload });
+        }
+        if datacount {
+            m.section(&we::DataCountSection { count: if data.is_some() { 1 } else { 0 } });
+        }
+        let mut c = we::CodeSection::new();
+        let mut func = we::Function::new([]);
+        for i in &body {
+            func.instruction(i);
+        }
+        func.instruction(&we::Instruction::End);
+        c.function(&func);
+        m.section(&c);
+        if let Some(d) = data {
+            let mut payload = vec![1u8];
+            payload.extend(d);
+            m.section(&we::RawSection { id: 11, data: &payload });
+        }
+        m.finish()
+    };
+    let needs = |bytes: &[u8]| -> String {
+        if absmod::validate(bytes).is_err() {
+            return "{\"INVALID\"}".to_string();
+        }
+        let f = minimal_features(bytes);
+        let v: Vec<String> = gen::Feat::names().into_iter().filter(|n| f.get(n)).map(|n| format!("\"{}\"", n)).collect();
+        format!("{{{}}}", v.join(", "))
+    };
+    let off = [0x41u8, 0x00, 0x0b];
+    let fidx = [0x01u8, 0x00];
+    let fexpr = [0x01u8, 0xd2, 0x00, 0x0b];
+    let cat = |parts: &[&[u8]]| -> Vec<u8> { parts.iter().flat_map(|p| p.iter().copied()).collect() };
+    let elem_flags: Vec<Vec<u8>> = vec![
+        cat(&[&[0], &off, &fidx]),
+        cat(&[&[1, 0], &fidx]),
+        cat(&[&[2, 0], &off, &[0], &fidx]),
+        cat(&[&[3, 0], &fidx]),
+        cat(&[&[4], &off, &fexpr]),
+        cat(&[&[5, 0x70], &fexpr]),
+        cat(&[&[6, 0], &off, &[0x70], &fexpr]),
+        cat(&[&[7, 0x70], &fexpr]),
+    ];
+    let mut out = String::new();
+    out.push_str("---------------------------- MODULE FeatureFacts ----------------------------\n");
+    out.push_str("(* GENERATED by `wv feature-facts`: the proposals that wasmparser's validator requires for each\n");
+    out.push_str("   binary encoding, found by switching proposals off one at a time (greedy minimisation). *)\n");
+    out.push_str("NeedsElemFlag(flag) ==\n  CASE ");
+    let rows: Vec<String> = elem_flags.iter().enumerate().map(|(k, e)| format!("flag = {} -> {}", k, needs(&base(Some(e.clone()), None, false, false, false, vec![])))).collect();
+    out.push_str(&rows.join("\n    [] "));
+    out.push_str("\nNeedsDataFlag(flag) ==\n  CASE ");
+    let data_flags: Vec<Vec<u8>> = vec![cat(&[&[0], &off, &[1, 7]]), vec![1, 1, 7], cat(&[&[2, 0], &off, &[1, 7]])];
+    let rows: Vec<String> = data_flags.iter().enumerate().map(|(k, d)| format!("flag = {} -> {}", k, needs(&base(None, Some(d.clone()), false, false, false, vec![])))).collect();
+    out.push_str(&rows.join("\n    [] "));
+    out.push_str(&format!("\nNeedsDataCount == {}\n", needs(&base(None, Some(data_flags[0].clone()), true, false, false, vec![]))));
+    use we::Instruction as I;
+    let bt = |b: we::BlockType| needs(&base(None, None, false, false, false, vec![I::Block(b), I::End]));
+    out.push_str(&format!("NeedsBlockEmpty == {}\n", bt(we::BlockType::Empty)));
+    out.push_str(&format!("NeedsBlockFuncTypeSimple == {}\n", bt(we::BlockType::FunctionType(0))));
+    out.push_str(&format!("NeedsBlockResult == {}\n", needs(&base(None, None, false, false, false, vec![I::Block(we::BlockType::Result(we::ValType::I32)), I::I32Const(0), I::End, I::Drop]))));
+    out.push_str(&format!("NeedsBlockMulti == {}\n", needs(&base(None, None, false, false, false, vec![I::Block(we::BlockType::FunctionType(1)), I::I32Const(0), I::I32Const(0), I::End, I::Drop, I::Drop]))));
+    out.push_str(&format!("NeedsCallIndirectTable0 == {}\n", needs(&base(None, None, false, false, false, vec![I::I32Const(0), I::CallIndirect { type_index: 0, table_index: 0 }]))));
+    out.push_str(&format!("NeedsCallIndirectTable1 == {}\n", needs(&base(None, None, false, true, false, vec![I::I32Const(0), I::CallIndirect { type_index: 0, table_index: 1 }]))));
+    out.push_str("=============================================================================\n");
+    out
 }
